@@ -54,8 +54,11 @@ func c13program(r *rng.R, tag string, n int, password bool) c13prog {
 				if r.Bool() {
 					p.Reqs = append(p.Reqs, resp.Cmd("AUTH", c08pass))
 					authed = true
-				} else {
+				} else if r.Bool() {
 					p.Reqs = append(p.Reqs, resp.Cmd("AUTH", rng.Pick(r, []string{"wrong", "", "Secr3"})))
+				} else {
+					// two-argument form with a wrong user name (right or wrong password): refused, changes nothing
+					p.Reqs = append(p.Reqs, resp.Cmd("AUTH", rng.Pick(r, []string{"admin", "alice"}), rng.Pick(r, []string{c08pass, "wrong"})))
 				}
 			} else {
 				p.Reqs = append(p.Reqs, resp.Cmd("PING"))
